@@ -78,14 +78,46 @@ def needs_fixed_dict(c):
     return any(w["table"] for w in c["wins"])
 
 
-def expected_cells(cells):
+MASK_STRING = "[M]"
+
+
+def expected_cells(cells, V=None):
+    """cells of the specification -> {(row label, column label): Fraction}; token index V is the mask token"""
+    def nm(t):
+        return MASK_STRING if (V is not None and t == V) else TOKS[t]
     exp = {}
     for e in cells:
         val = sum(Fraction(n, d) for n, d in e["v"])
         if val != 0:
-            exp[(TOKS[e["r"]] if isinstance(e["r"], int) else "_".join(TOKS[t] for t in e["r"]),
-                 e["b"] + "_" + (TOKS[e["c"]] if isinstance(e["c"], int) else e["c"]))] = val
+            exp[(nm(e["r"]) if isinstance(e["r"], int) else "_".join(nm(t) for t in e["r"]),
+                 e["b"] + "_" + (nm(e["c"]) if isinstance(e["c"], int) else e["c"]))] = val
     return exp
+
+
+def prune_kwargs(item, c):
+    """vocabulary settings of C14: excluded tokens, mask string, nullify"""
+    pr = item.get("prune")
+    kw = {}
+    if pr:
+        if pr["excluded"]:
+            kw["excluded_tokens"] = set(TOKS[i] for i in pr["excluded"])
+        if pr["mask"]:
+            kw["mask_string"] = MASK_STRING
+            if c.get("nullify"):
+                kw["nullify_mask"] = True
+    return kw
+
+
+def check_mask_entry(m, item):
+    """with a mask string the mask is exactly one extra vocabulary entry with the last index"""
+    pr = item.get("prune")
+    d = m.token_label_dictionary_
+    if pr and pr["mask"]:
+        if d.get(MASK_STRING) != len(d) - 1 or sorted(d.values()) != list(range(len(d))):
+            return {"mask_entry": {str(k): int(v) for k, v in d.items()}}
+    elif MASK_STRING in d:
+        return {"mask_entry_without_mask_string": True}
+    return {}
 
 
 def observed_cells(model, M, row_index=None):
@@ -264,9 +296,10 @@ def run(item):
             ka["delta"] = 1.0
     if fam == "ngram":
         kw["ngram_size"] = item["N"]
+    kw.update(prune_kwargs(item, c))
     kw.update(item.get("extra") or {})
     X = build_X(item)
-    exp = expected_cells(item["cells"])
+    exp = expected_cells(item["cells"], V if item.get("prune") else None)
     out = {"ok": True, "fails": []}
 
     def rows(m):
@@ -290,6 +323,10 @@ def run(item):
         if bad:
             out["ok"] = False
             out["fails"].append({"mode": mode, "bad": bad})
+        me = check_mask_entry(m, item) if fam != "ngram" else {}
+        if me:
+            out["ok"] = False
+            out["fails"].append(dict(me, mode=mode))
     return out
 
 
